@@ -23,6 +23,10 @@ CHECKS = {
    text="Table cells, two threshold vectors and two min_n_cycles are z3 variables; input labels are produced by the real detect_bursts_cycles on the same path, then the real recompute_edges/recompute_edge run; frame (input untouched, only edge consistency cells change), value (one-sided ratio) and label (rule on the edited table; bursts only grow for unchanged thresholds) obligations are proved. Larger tables use a cut of compute_*_consistency (proved by C05) to keep the arithmetic linear.",
    note="Trusted: pandas/numpy models (witness-validated), C05 for the cut configurations. Bounds: uncut rows 3..4 (quick) / 3..5 (thorough); cut rows 3..6 / 3..8.",
    ref="4 C16"),
+ 'C18': dict(
+   text="Sample columns are z3 integers under the C01 ordering invariant, feature cells / time stamps / start / stop z3 reals (or None); the real limit_df, limit_signal, split_samples_df, drop_samples_df and flatten_dfs run over the pandas/numpy models on every feasible path and selection, order, value-preservation and common-offset obligations are proved.",
+   note="Trusted: pandas/numpy models (witness-validated). fs enumerated in {1,2,0.5(,4)} so start*fs is linear; IEEE rounding of fs*start is outside this check (covered by the C20 floating-point kernels). Bounds in evidence.bounds.",
+   ref="4 C18"),
  'C06': dict(
    text="All four feature columns (reals with a symbolic NaN flag per cell), the four thresholds and min_n_cycles are z3 variables; every feasible path of the real detect_bursts_cycles + check_min_burst_cycles is executed over the pandas/numpy models and the label rule and the threshold-monotonicity implication (second run on the same path) are proved.",
    note="Trusted: pandas/numpy models (witness-validated on real pandas 3 every run). Bound: 1..7 rows (quick) / 1..10 (thorough). +-inf cells not explored.",
